@@ -942,6 +942,8 @@ class ServerTls(Server):
                                  cafilepath=self.cafilepath,
                                 )
 
+            if ca in self.cxes and self.cxes[ca] is not incomer:
+                self.cxes[ca].shutdown()
             self.cxes[ca] = incomer
 
     def serviceCxes(self):
@@ -951,6 +953,8 @@ class ServerTls(Server):
         """
         for ca, cx in self.cxes.items():
             if cx.serviceHandshake():
+                if ca in self.ixes and self.ixes[ca] is not cx:
+                    self.shutdownIx(ca)
                 self.ixes[ca] = cx
                 del self.cxes[ca]
 
